@@ -479,14 +479,11 @@ Section Sound.
       - (* assignment expression *) cbn [type_expr] in T. destruct (t_lookup x G) as [[t0 [|]]|] eqn:L; try discriminate.
         destruct (type_expr sigs G e) as [ta|] eqn:Ta; [|discriminate].
         destruct (assignable t0 ta) eqn:A; [|discriminate]. inversion T; subst.
-        cbn [eval_step]. eapply ok_res_bind; [apply (EV G e ta s Ta S)|]. intros [v s1] [Hv S1]. cbn [fst snd] in *.
-        destruct (lookup_var G s1 x t false S1 L) as [old [Ho Hto]].
+        cbn [eval_step]. eapply ok_res_bind; [apply (EV G e t s Ta S)|]. intros [v s1] [Hv S1]. cbn [fst snd] in *.
+        destruct (lookup_var G s1 x t0 false S1 L) as [old [Ho Hto]].
         rewrite (write_found x v old s1 Ho). cbn [bind].
-        assert (has_ty (widen (type_of old) v) t) as Hw by (destruct Hto as [-> _]; now apply (has_ty_widen t ta)).
-        assert (st_ok G (with_env s1 (update x (widen (type_of old) v) (s_env s1)))) as Sn.
-        { destruct S1 as [E Hh]. split; [|exact Hh]. cbn. exact (env_ok_update G _ x t false _ E L Hw). }
-        destruct (lookup_var G _ x t false Sn L) as [w [Hlw Htw]].
-        rewrite (read_found x w _ Hlw). cbn. auto.
+        assert (has_ty (widen (type_of old) v) t0) as Hw by (destruct Hto as [-> _]; now apply (has_ty_widen t0 t)).
+        cbn. split; [exact Hv|]. destruct S1 as [E Hh]. split; [|exact Hh]. cbn. exact (env_ok_update G _ x t0 false _ E L Hw).
     Qed.
 
     (* ---------------------------------------------------------------- one step of the statement interpreter *)
